@@ -3,6 +3,7 @@
 //@ must_verify dot_op_type
 //@ include prelude/head.rs
 use std::rc::Rc;
+use vstd::std_specs::cmp::{PartialEqSpec, PartialEqSpecImpl};
 
 // The ucg macros `use` these paths; in the one-file crate they name the items extracted below.
 mod tokenizer { pub use crate::token_clone; }
@@ -28,6 +29,16 @@ verus! {
 
 //@ opaque Expression Position
 
+// Error<C> stays opaque (prelude/ap_slice.rs, R5); the second constructor the ucg macros use.
+impl<C> Error<C> {
+    #[verifier::external_body]
+    pub fn caused_by<D>(msg: D, cause: Box<Self>, ctx: Box<C>) -> Self { unimplemented!() }
+}
+
+// std: `Rc<str>::from(&str)` (the `$f.into()` of match_token!) copies the characters.
+pub assume_specification<'a, 'b> [<Rc<str> as From<&'a str>>::from] (s: &'b str) -> (r: Rc<str>)
+    ensures r@ == s@;
+
 //@ extract src/ast/mod.rs :: enum BinaryExprType
 //@   rule R0
 //@ end
@@ -41,6 +52,15 @@ verus! {
 //@   rule R0
 //@ end
 //@ clone_spec Token
+// R0: `#[derive(PartialEq)]` on TokenType (a field-less enum) is assumed structural.
+impl PartialEqSpecImpl for TokenType {
+    open spec fn obeys_eq_spec() -> bool { true }
+    open spec fn eq_spec(&self, other: &TokenType) -> bool { *self == *other }
+}
+impl PartialEq for TokenType {
+    #[verifier::external_body]
+    fn eq(&self, other: &TokenType) -> bool { unimplemented!() }
+}
 
 //@ extract src/tokenizer/mod.rs :: fn token_clone
 //@   ret r
